@@ -120,6 +120,9 @@ func (c *CapturedTicker) Stopped() bool { return c.stopped.Load() }
 // Fire delivers one tick; it blocks until the receiver has taken it or the
 // timeout (real time) expires, and reports whether it was taken.
 func (c *CapturedTicker) Fire(timeout Duration) bool {
+	if c.stopped.Load() {
+		return false // the owner has stopped the ticker (the janitor has exited)
+	}
 	t := rt.NewTimer(timeout)
 	defer t.Stop()
 	select {
